@@ -1,11 +1,12 @@
 #!/bin/sh
 # seedall.sh : run every stored seeded change against its own property's quick check
 for d in /verif/seeded/C*; do
-  p=$(basename $d)
-  git -C /repo apply $d/patch.diff 2>/dev/null || { echo "$p: patch does not apply"; continue; }
+  p=$(python3 -c "import json,sys; print(json.load(open(sys.argv[1]))['property'])" $d/meta.json)
+  n=$(basename $d)
+  git -C /repo apply $d/patch.diff 2>/dev/null || { echo "$n: patch does not apply"; continue; }
   out=$(cd /verif && ./check $p --tier quick 2>&1); rc=$?
   n=$(echo "$out" | grep -c "^VIOLATION"); nf=$(echo "$out" | grep -c "no-failing-input-found")
-  echo "$p rc=$rc violations=$n (no-failing-input-found: $nf)"
+  echo "$n ($p) rc=$rc violations=$n (no-failing-input-found: $nf)"
   git -C /repo checkout -- .
   git -C /repo clean -qfd src
 done
